@@ -344,3 +344,275 @@ theorem finishTail_ok (s : State) (hvb : ∀ id, s.vb id ≠ some s.lastAccepted
       exact ⟨hk.la, hk.obj, hk.lp, rfl, bad, rfl⟩
 
 end HyperModel.Snow
+
+namespace HyperModel.Snow
+
+/-! ### The registered unresolved set is exactly the processing blocks left unverified -/
+
+theorem reverifyOne_failed (s : State) (bad : List Nat) (h : Nat) :
+    reverifyOne (s, bad, true) h = (s, bad, true) := by
+  simp [reverifyOne]
+
+theorem reverify_fold_failed (l : List Nat) (s : State) (bad : List Nat) :
+    l.foldl reverifyOne (s, bad, true) = (s, bad, true) := by
+  induction l with
+  | nil => rfl
+  | cons h r ih => rw [List.foldl_cons, reverifyOne_failed, ih]
+
+/-- one iteration on an unverified processing block: other objects untouched, the block keeps its
+header, and either it is now verified and `bad` is unchanged, or it is untouched and joins `bad` -/
+theorem reverifyOne_spec (s : State) (bad : List Nat) (h : Nat) (hu : (s.obj h).verified = false)
+    (hf : (reverifyOne (s, bad, false) h).2.2 = false) :
+    (∀ j, j ≠ h → (reverifyOne (s, bad, false) h).1.obj j = s.obj j) ∧
+    ((reverifyOne (s, bad, false) h).1.obj h).blk = (s.obj h).blk ∧
+    ((((reverifyOne (s, bad, false) h).1.obj h).verified = true ∧ (reverifyOne (s, bad, false) h).2.1 = bad) ∨
+     (((reverifyOne (s, bad, false) h).1.obj h).verified = false ∧
+       (reverifyOne (s, bad, false) h).2.1 = bad ++ [(s.obj h).blk.id])) := by
+  revert hf
+  unfold reverifyOne
+  simp only [Bool.false_eq_true, if_false]
+  split
+  · simp
+  · split
+    · intro _; exact ⟨fun _ _ => rfl, rfl, Or.inr ⟨hu, rfl⟩⟩
+    · split
+      · intro _; exact ⟨fun _ _ => rfl, rfl, Or.inr ⟨hu, rfl⟩⟩
+      · intro _
+        refine ⟨fun j hj => by simp [hj], by simp, Or.inl ⟨by simp, rfl⟩⟩
+
+theorem reverify_fold_bad (l : List Nat) :
+    ∀ (s : State) (bad : List Nat) (s' : State) (bad' : List Nat), l.Nodup →
+      (∀ h ∈ l, (s.obj h).verified = false) →
+      l.foldl reverifyOne (s, bad, false) = (s', bad', false) →
+      bad' = bad ++ (l.filter (fun h => !(s'.obj h).verified)).map (fun h => (s.obj h).blk.id) ∧
+      (∀ h ∈ l, (s'.obj h).blk = (s.obj h).blk) := by
+  induction l with
+  | nil =>
+    intro s bad s' bad' _ _ hf
+    simp only [List.foldl_nil, Prod.mk.injEq] at hf
+    obtain ⟨rfl, rfl, _⟩ := hf
+    simp
+  | cons h r ih =>
+    intro s bad s' bad' hnd hu hf
+    rw [List.foldl_cons] at hf
+    have hnd' := List.nodup_cons.mp hnd
+    have huh := hu h List.mem_cons_self
+    cases hfail : (reverifyOne (s, bad, false) h).2.2 with
+    | true =>
+      have : reverifyOne (s, bad, false) h = ((reverifyOne (s, bad, false) h).1, (reverifyOne (s, bad, false) h).2.1, true) := by
+        apply Prod.ext; rfl; apply Prod.ext; rfl; exact hfail
+      rw [this, reverify_fold_failed] at hf
+      simp at hf
+    | false =>
+      obtain ⟨k1, k2, k3⟩ := reverifyOne_spec s bad h huh hfail
+      have hdec : reverifyOne (s, bad, false) h = ((reverifyOne (s, bad, false) h).1, (reverifyOne (s, bad, false) h).2.1, false) := by
+        apply Prod.ext; rfl; apply Prod.ext; rfl; exact hfail
+      rw [hdec] at hf
+      have hne : ∀ j ∈ r, j ≠ h := fun j hj hc => hnd'.1 (hc ▸ hj)
+      obtain ⟨i1, i2⟩ := ih _ _ s' bad' hnd'.2
+        (fun j hj => by rw [k1 j (hne j hj)]; exact hu j (List.mem_cons_of_mem _ hj)) hf
+      have hkeep := reverify_fold_keep h r (fun j hj hc => hnd'.1 (hc ▸ hj))
+        ((reverifyOne (s, bad, false) h).1, (reverifyOne (s, bad, false) h).2.1, false)
+      rw [hf] at hkeep
+      have hobj : s'.obj h = (reverifyOne (s, bad, false) h).1.obj h := hkeep.obj
+      have hmap : (r.filter (fun j => !(s'.obj j).verified)).map (fun j => ((reverifyOne (s, bad, false) h).1.obj j).blk.id) =
+          (r.filter (fun j => !(s'.obj j).verified)).map (fun j => (s.obj j).blk.id) := by
+        apply List.map_congr_left
+        intro j hj
+        rw [k1 j (hne j (List.mem_filter.mp hj).1)]
+      refine ⟨?_, ?_⟩
+      · rw [i1, hmap]
+        rcases k3 with ⟨v, b⟩ | ⟨v, b⟩
+        · simp [List.filter_cons, hobj, v, b]
+        · simp [List.filter_cons, hobj, v, b]
+      · intro j hj
+        rcases List.mem_cons.mp hj with rfl | hj
+        · rw [hobj, k2]
+        · rw [i2 j hj, k1 j (hne j hj)]
+
+theorem insertByHeight_congr (s s' : State) (h : s'.objs = s.objs) : insertByHeight s' = insertByHeight s := by
+  have ho : ∀ j, s'.obj j = s.obj j := by intro j; simp [State.obj, h]
+  funext a l
+  induction l with
+  | nil => rfl
+  | cons x r ih =>
+    unfold insertByHeight
+    dsimp only
+    rw [ho a, ho x, ih]
+
+/-- `finishTail` registers exactly the ids of the processing blocks that are unverified afterwards -/
+theorem finishTail_failed_set (s : State) (hnd : s.processingSorted.Nodup)
+    (hu : ∀ h ∈ s.processingSorted, (s.obj h).verified = false) (hok : (finishTail s).2 = .ok) :
+    (finishTail s).1.unresolved =
+      some ((s.processingSorted.filter (fun h => !((finishTail s).1.obj h).verified)).map (fun h => (s.obj h).blk.id)) := by
+  have hps : ({ s with lastProcessed := some s.lastAccepted } : State).processingSorted = s.processingSorted := by
+    unfold State.processingSorted
+    rw [insertByHeight_congr s { s with lastProcessed := some s.lastAccepted } rfl]
+  have key := reverify_fold_bad s.processingSorted { s with lastProcessed := some s.lastAccepted } []
+  revert hok key
+  unfold finishTail
+  dsimp only
+  rw [hps]
+  generalize (List.foldl reverifyOne ({ s with lastProcessed := some s.lastAccepted }, [], false) s.processingSorted) = res
+  obtain ⟨s', bad, failed⟩ := res
+  intro hok key
+  cases failed with
+  | true => simp at hok
+  | false =>
+    dsimp only at hok ⊢
+    split at hok
+    · simp at hok
+    · obtain ⟨k1, _⟩ := key s' bad hnd hu rfl
+      simp only [List.nil_append] at k1
+      show some bad = _
+      rw [k1]; rfl
+
+/-! ### verified flags of objects other than the one being verified never change in normal operation -/
+
+def ObjSame (s s' : State) : Prop := ∀ j, j < s.nobj → (s'.obj j).verified = (s.obj j).verified
+
+theorem ObjSame.refl (s : State) : ObjSame s s := fun _ _ => rfl
+theorem ObjSame.of_eq {s s' : State} (h : s'.objs = s.objs) : ObjSame s s' := by
+  intro j _; simp [State.obj, h]
+theorem ObjSame.alloc (s : State) (o : Obj) : ObjSame s (s.alloc o).1 := by
+  intro j hj
+  have : j ≠ s.nobj := by omega
+  simp [obj_alloc, this]
+theorem ObjSame.trans {a b c : State} (h1 : ObjSame a b) (hn : a.nobj ≤ b.nobj) (h2 : ObjSame b c) : ObjSame a c := by
+  intro j hj; rw [h2 j (by omega), h1 j hj]
+
+theorem ObjSame.materialize (s : State) (f : Found) : ObjSame s (s.materialize f).1 := by
+  cases f with
+  | obj h => exact ObjSame.refl s
+  | bare b => exact ObjSame.alloc s _
+  | missing => exact ObjSame.refl s
+
+theorem ObjSame.get (s : State) (id : Nat) : ObjSame s (get s id).1 := by
+  unfold HyperModel.Snow.get
+  have := ObjSame.materialize s (s.getBlock id)
+  split <;> simp_all
+
+theorem ObjSame.getH (s : State) (ht : Nat) : ObjSame s (getH s ht).1 := by
+  unfold HyperModel.Snow.getH
+  split
+  · exact ObjSame.refl s
+  · split
+    · exact ObjSame.refl s
+    · split
+      · exact ObjSame.refl s
+      · exact ObjSame.get s _
+
+theorem ObjSame.parseNew (s : State) (b : Blk) : ObjSame s (parseNew s b).1 := by
+  unfold HyperModel.Snow.parseNew
+  intro j hj
+  have : j ≠ (s.emit (Event.cParse b)).nobj := by show j ≠ s.nobj; omega
+  show ((State.alloc (s.emit (.cParse b)) { blk := b }).1.obj j).verified = _
+  simp [obj_alloc, this]
+
+theorem ObjSame.parse (s : State) (b : Blk) : ObjSame s (parse s b).1 := by
+  unfold HyperModel.Snow.parse
+  split
+  · split
+    · exact ObjSame.of_eq rfl
+    · exact ObjSame.parseNew { s with parsed := (s.parsed.get b.id).1 } b
+  · have := ObjSame.materialize s (s.getBlock b.id)
+    split <;> simp_all
+
+theorem ObjSame.build (s : State) (n : Nat) (c : Option Nat) : ObjSame s (build s n c).1 := by
+  unfold HyperModel.Snow.build
+  dsimp only
+  split
+  · exact ObjSame.refl s
+  · split
+    · exact ObjSame.of_eq rfl
+    · intro j hj
+      show ((State.alloc (State.emit s _) _).1.obj j).verified = _
+      simp only [obj_alloc]
+      split
+      · rename_i e
+        have e' : j = s.nobj := e
+        omega
+      · rfl
+
+theorem vflag_verify (s : State) (h : Nat) (c : Option Nat) (j : Nat) (hne : j ≠ h) :
+    ((verify s h c).1.obj j).verified = (s.obj j).verified := by
+  unfold HyperModel.Snow.verify
+  dsimp only
+  split
+  · rfl
+  · split
+    · split <;> rfl
+    · split
+      · rfl
+      · split
+        · rfl
+        · split
+          · rfl
+          · split
+            · rfl
+            · simp [hne]
+
+theorem vflag_accept (s : State) (h j : Nat) : ((accept s h).1.obj j).verified = (s.obj j).verified := by
+  unfold HyperModel.Snow.accept
+  dsimp only
+  split
+  · rfl
+  · split
+    · rfl
+    · split
+      · rfl
+      · split <;> rfl
+
+theorem vflag_reject (s : State) (h j : Nat) : ((reject s h).1.obj j).verified = (s.obj j).verified := by
+  unfold HyperModel.Snow.reject
+  dsimp only
+  split <;> rfl
+
+theorem vflag_deq (s : State) (j : Nat) : ((deq s).1.obj j).verified = (s.obj j).verified := by
+  unfold HyperModel.Snow.deq
+  split
+  · split <;> rfl
+  · rfl
+
+theorem vflag_fin (s : State) (j : Nat) : ((fin s).1.obj j).verified = (s.obj j).verified := by
+  unfold HyperModel.Snow.fin
+  split
+  · rfl
+  next h pa _ =>
+    show ((((s.emit (.cAccept pa (s.obj h).out (chainAccept pa (s.obj h).out))).setObj h
+      { s.obj h with acc := some (chainAccept pa (s.obj h).out), accepted := true }).emit
+      (.nAccepted (chainAccept pa (s.obj h).out))).obj j).verified = _
+    simp only [obj_emit, obj_setObj]
+    split
+    · rename_i e; subst e; rfl
+    · rfl
+
+/-- in normal operation a step changes the `verified` flag of no allocated object except the one
+named by a `verify` call -/
+theorem verified_flag_stable (s : State) (op : Op)
+    (hn : (match op with | .start _ | .finish _ _ => false | _ => true) = true) (j : Nat) (hj : j < s.nobj)
+    (hv : ∀ c, op ≠ .verify j c) : ((step s op).1.obj j).verified = (s.obj j).verified := by
+  unfold HyperModel.Snow.step
+  split
+  · rfl
+  · cases op with
+    | build n c => exact ObjSame.build s n c j hj
+    | parse b => exact ObjSame.parse s b j hj
+    | verify h c =>
+      have hne : j ≠ h := by intro e; subst e; exact hv c rfl
+      dsimp only; split; exact vflag_verify s h c j hne; rfl
+    | accept h => dsimp only; split; exact vflag_accept s h j; rfl
+    | reject h => dsimp only; split; exact vflag_reject s h j; rfl
+    | pref id => rfl
+    | get id => exact ObjSame.get s id j hj
+    | getH ht => exact ObjSame.getH s ht j hj
+    | last => rfl
+    | deq => exact vflag_deq s j
+    | fin => exact vflag_fin s j
+    | start b => simp at hn
+    | finish b st => simp at hn
+    | health => rfl
+    | ciLast => rfl
+    | ciPref => rfl
+
+end HyperModel.Snow
